@@ -106,6 +106,12 @@ pub fn swarm_net(rng: &mut Rng, lat_choices: &[u64], faults: bool) -> NetCfg {
         2 => 200_000,
         _ => 0,
     };
+    // spurious receive errors (ECONNRESET and friends): nothing is lost, so on in every family too
+    n.recv_err_ppm = match (n.seed / 4) % 4 {
+        1 => 2_000,
+        2 => 30_000,
+        _ => 0,
+    };
     if faults {
         let rates = [0u32, 0, 5_000, 20_000, 80_000, 200_000];
         if rng.chance(1, 2) {
